@@ -1164,6 +1164,8 @@ impl<'a> Dec<'a> {
         l.p("csum", be16(b, o + 6));
         l.pu("~pay_off", o + 8);
         l.pu("~pay_len", pay_end - (o + 8));
+        // `UdpSlice::payload_len_source()`: the length field, where it was usable
+        l.p("~udp_src", if (8..=a).contains(&len) { Src::UdpLen as u8 } else { Src::Slice as u8 });
         self.layers.push(l);
         let inc = self.payload.incomplete;
         self.payload = RPayload::new("udp", o + 8, pay_end - (o + 8));
